@@ -182,6 +182,8 @@ func (t *Termer) term(v ssa.Value, ps *pathState) string {
 		return t.Term(x.X, ps)
 	case *ssa.MakeInterface:
 		return t.Term(x.X, ps)
+	case *instAlloc:
+		return "local:" + x.Alloc.Comment + "#" + itoa(x.inst)
 	case *ssa.Alloc:
 		// a range-value copy (`for _, k := range key`) is named after the element it copies
 		if st := singleStore(x); st != nil {
@@ -305,6 +307,9 @@ func (t *Termer) term(v ssa.Value, ps *pathState) string {
 		}
 		if x.High != nil {
 			hi = t.Term(x.High, ps)
+		}
+		if lo == "const:0" && hi == "" && x.Max == nil {
+			return t.Term(x.X, ps) // x[0:] is x
 		}
 		return t.Term(x.X, ps) + "[" + lo + ":" + hi + "]"
 	case *ssa.Phi:
@@ -503,6 +508,17 @@ type TabOpts struct {
 	// NoSplitBool keeps `return a < b` as one path returning the comparison (default: two paths, each with the
 	// literal and a constant result, exactly as if the function had branched on the comparison).
 	NoSplitBool bool
+	// FieldCells tracks stores into fields of local structs along the path (so that a load of such a field resolves to
+	// what was stored). RunDefers executes the deferred calls at the function's exits (module functions and function
+	// literals are walked in place, others produce a "rundefer" event).
+	FieldCells bool
+	RunDefers  bool
+	// InlineAlso: confirmed functions that this enumeration walks in place as well (a three-way helper whose table is
+	// decided separately, called where the comparison used to be written out).
+	InlineAlso map[*ssa.Function]bool
+	// InitBind: parameters of the function the enumeration starts in that are bound from the outset (the enumeration
+	// starts inside a freshly extracted helper, in the context of the one call that reaches it).
+	InitBind map[*ssa.Parameter]ssa.Value
 }
 
 // inlinable is set at load time: a module function with a body that was not part of the tree the rules were confirmed
@@ -553,6 +569,94 @@ func EnumLits(start *ssa.BasicBlock, idx int, o TabOpts) ([]*LPath, bool) {
 			if o.Stop != nil && o.Stop(in, ps) {
 				out = append(out, &LPath{Lits: fr.lits, Unknown: fr.unknown, Events: fr.events, Stop: in, PS: ps})
 				return
+			}
+			if o.FieldCells {
+				if st, ok := in.(*ssa.Store); ok {
+					if fa, ok := st.Addr.(*ssa.FieldAddr); ok {
+						if k := ps.fcKey(fa); k != "" {
+							if ps.FCells == nil {
+								ps.FCells = map[string]ssa.Value{}
+							}
+							ps.FCells[k] = ps.Resolve(st.Val)
+						}
+					}
+				}
+				if ld, ok := in.(*ssa.UnOp); ok && ld.Op == token.MUL {
+					if fa, ok := ld.X.(*ssa.FieldAddr); ok && ps.FCells != nil {
+						if cur, stored := ps.FCells[ps.fcKey(fa)]; stored {
+							if ps.Loaded == nil {
+								ps.Loaded = map[*ssa.UnOp]ssa.Value{}
+							}
+							ps.Loaded[ld] = cur
+						}
+					}
+				}
+			}
+			if o.RunDefers {
+				if d, ok := in.(*ssa.Defer); ok {
+					rec := deferRec{d: d, fn: b.Parent(), val: ps.Resolve(d.Call.Value)}
+					for _, a := range d.Call.Args {
+						rec.args = append(rec.args, ps.Resolve(a))
+					}
+					ps.Defers = append(ps.Defers, rec)
+				}
+				if _, ok := in.(*ssa.RunDefers); ok {
+					// the most recently registered deferred call of this function runs next; the instruction is visited
+					// again afterwards for the one before it
+					k := -1
+					for j := len(ps.Defers) - 1; j >= 0; j-- {
+						if ps.Defers[j].fn == b.Parent() {
+							k = j
+							break
+						}
+					}
+					if k >= 0 {
+						rec := ps.Defers[k]
+						ps.Defers = append(append([]deferRec(nil), ps.Defers[:k]...), ps.Defers[k+1:]...)
+						var f *ssa.Function
+						var mc *ssa.MakeClosure
+						if m, ok := rec.val.(*ssa.MakeClosure); ok {
+							mc = m
+							f, _ = m.Fn.(*ssa.Function)
+						} else if sc := rec.d.Call.StaticCallee(); sc != nil && o.Termer != nil && o.Termer.P != nil && o.Termer.P.InModule(sc) {
+							f = sc
+						}
+						if f != nil && len(f.Blocks) > 0 && len(rec.args) == len(f.Params) && !onStackFn(ps, f) && len(ps.Stack) < maxInlineDepth+2 {
+							if ps.Bind == nil {
+								ps.Bind = map[*ssa.Parameter]ssa.Value{}
+							}
+							for j, a := range rec.args {
+								ps.Bind[f.Params[j]] = a
+							}
+							if mc != nil {
+								if ps.BindFV == nil {
+									ps.BindFV = map[*ssa.FreeVar]ssa.Value{}
+								}
+								for j, fv := range f.FreeVars {
+									if j < len(mc.Bindings) {
+										ps.BindFV[fv] = mc.Bindings[j]
+									}
+								}
+							}
+							for _, fb := range f.Blocks {
+								delete(ps.Visits, fb)
+								delete(ps.Havoc, fb)
+							}
+							ps.Stack = append(ps.Stack, inlFrame{call: nil, block: b, idx: i - 1, fn: f})
+							walk(f.Blocks[0], 0, ps, fr, true)
+							return
+						}
+						if o.EventOf != nil {
+							if ev, ok := o.EventOf(rec.d, ps); ok {
+								ev.Kind = "rundefer"
+								ev.Instr = rec.d
+								fr.events = append(append([]Event(nil), fr.events...), ev)
+							}
+						}
+						walk(b, i, ps, fr, false)
+						return
+					}
+				}
 			}
 			if ld, ok := in.(*ssa.UnOp); ok && ld.Op == token.MUL {
 				var a *ssa.Alloc
@@ -610,7 +714,7 @@ func EnumLits(start *ssa.BasicBlock, idx int, o TabOpts) ([]*LPath, bool) {
 				}
 			}
 			if call, ok := in.(*ssa.Call); ok && !o.NoInline && inlinable != nil && len(ps.Stack) < maxInlineDepth {
-				if f := call.Common().StaticCallee(); f != nil && len(f.Blocks) > 0 && len(f.FreeVars) == 0 && inlinable(f) && len(call.Common().Args) == len(f.Params) && !onStack(ps, f) {
+				if f := call.Common().StaticCallee(); f != nil && len(f.Blocks) > 0 && len(f.FreeVars) == 0 && (inlinable(f) || o.InlineAlso[f]) && len(call.Common().Args) == len(f.Params) && !onStack(ps, f) {
 					if ps.Bind == nil {
 						ps.Bind = map[*ssa.Parameter]ssa.Value{}
 					}
@@ -637,6 +741,28 @@ func EnumLits(start *ssa.BasicBlock, idx int, o TabOpts) ([]*LPath, bool) {
 					fr.events = append(append([]Event(nil), fr.events...), ev)
 				}
 			}
+			// a struct whose address is handed to a call that is not walked in place may be changed by it
+			if ci, ok := in.(ssa.CallInstruction); ok && o.FieldCells && len(ps.FCells) > 0 {
+				if _, isDefer := in.(*ssa.Defer); !isDefer {
+					for _, a := range ci.Common().Args {
+						pfx := ""
+						switch bb := ps.Resolve(a).(type) {
+						case *instAlloc:
+							pfx = "I" + itoa(bb.inst) + ":" + bb.Alloc.Name() + "."
+						case *ssa.Alloc:
+							pfx = "A:" + bb.Parent().Name() + ":" + bb.Name() + "."
+						}
+						if pfx == "" {
+							continue
+						}
+						for k := range ps.FCells {
+							if strings.HasPrefix(k, pfx) {
+								delete(ps.FCells, k)
+							}
+						}
+					}
+				}
+			}
 			if r, ok := in.(*ssa.Return); ok {
 				if k := len(ps.Stack); k > 0 {
 					top := ps.Stack[k-1]
@@ -644,11 +770,26 @@ func EnumLits(start *ssa.BasicBlock, idx int, o TabOpts) ([]*LPath, bool) {
 					rs := make([]ssa.Value, len(r.Results))
 					for j, rv := range r.Results {
 						rs[j] = ps.Resolve(rv)
+						// an object allocated by this instance of the helper and handed out: give it an identity of its own
+						if a, ok := rs[j].(*ssa.Alloc); ok && o.FieldCells && top.fn != nil && a.Parent() == top.fn {
+							ps.InstN++
+							ia := &instAlloc{Alloc: a, inst: ps.InstN}
+							oldPfx := "A:" + a.Parent().Name() + ":" + a.Name() + "."
+							for k, v := range ps.FCells {
+								if strings.HasPrefix(k, oldPfx) {
+									ps.FCells["I"+itoa(ia.inst)+":"+a.Name()+"."+strings.TrimPrefix(k, oldPfx)] = v
+									delete(ps.FCells, k)
+								}
+							}
+							rs[j] = ia
+						}
 					}
-					if ps.Ret == nil {
-						ps.Ret = map[*ssa.Call][]ssa.Value{}
+					if top.call != nil {
+						if ps.Ret == nil {
+							ps.Ret = map[*ssa.Call][]ssa.Value{}
+						}
+						ps.Ret[top.call] = rs
 					}
-					ps.Ret[top.call] = rs
 					if ps.Resume == nil {
 						ps.Resume = map[int]bool{}
 					}
@@ -746,7 +887,14 @@ func EnumLits(start *ssa.BasicBlock, idx int, o TabOpts) ([]*LPath, bool) {
 			walk(s, 0, nps, nfr, true)
 		}
 	}
-	walk(start, idx, &pathState{Cells: map[*ssa.Alloc]ssa.Value{}, Vals: o.Values}, frame{}, true)
+	ps0 := &pathState{Cells: map[*ssa.Alloc]ssa.Value{}, Vals: o.Values}
+	if len(o.InitBind) > 0 {
+		ps0.Bind = map[*ssa.Parameter]ssa.Value{}
+		for k, v := range o.InitBind {
+			ps0.Bind[k] = v
+		}
+	}
+	walk(start, idx, ps0, frame{}, true)
 	return out, !overflow
 }
 
